@@ -42,9 +42,23 @@ func (c *cluster) commitObserved(n *node, how string, idx, term uint64, typ pb.E
 	c.flags |= fCommitAdvanced
 }
 
-func (c *cluster) check(n, before *node, eff *effects, e Event) {
+// checkPersisted: what a node has written to its storage only ever moves forward. These
+// checks read nothing but the storage (and the effects of the input), so they are also run
+// when the library panicked half-way through the Ready handling.
+//
+//   - PersistedTermMonotonic / PersistedCommitMonotonic / VoteStability: the HardState.
+//   - SnapshotMonotonic: the storage's snapshot index never decreases.
+//   - CommittedEntryRemoved: every index up to the commit index the node had persisted before
+//     the event is still accounted for afterwards, i.e. it is covered by the node's snapshot or
+//     still present in its log (the log above the snapshot is contiguous, so this is "last
+//     index >= old commit"). That the entries still there are the committed ones is
+//     CommittedEntryRewritten (ledger comparison in check) together with
+//     CommittedEntryRemoved's entry-by-entry comparison against the node's own previous log.
+//   - ObsoleteSnapshotInReady: a Ready never asks the application to install a snapshot at or
+//     below what it has already applied / what its storage already starts from (raftexample's
+//     publishSnapshot is fatal on it, MemoryStorage answers ErrSnapOutOfDate).
+func (c *cluster) checkPersisted(n, before *node, eff *effects, e Event) {
 	hs := n.hs
-	// --- persisted HardState never regresses
 	if hs.Term < before.hs.Term {
 		c.fail("PersistedTermMonotonic", "node %d: persisted term went from %d to %d on %s", n.id, before.hs.Term, hs.Term, evNames[e.K])
 	}
@@ -54,8 +68,68 @@ func (c *cluster) check(n, before *node, eff *effects, e Event) {
 	if hs.Vote != before.hs.Vote && hs.Term == before.hs.Term && before.hs.Vote != 0 {
 		c.fail("VoteStability", "node %d: persisted vote changed from %d to %d within term %d on %s", n.id, before.hs.Vote, hs.Vote, hs.Term, evNames[e.K])
 	}
+	if n.snapIdx < before.snapIdx {
+		c.fail("SnapshotMonotonic", "node %d: storage snapshot index went from %d to %d on %s", n.id, before.snapIdx, n.snapIdx, evNames[e.K])
+	}
+	if n.lastIndex() < before.hs.Commit {
+		c.fail("CommittedEntryRemoved", "node %d: had committed up to index %d, after %s its snapshot+log end at %d", n.id, before.hs.Commit, evNames[e.K], n.lastIndex())
+	} else {
+		for i := range before.log {
+			be := &before.log[i]
+			if be.Index > before.hs.Commit {
+				break
+			}
+			if be.Index <= n.snapIdx {
+				continue // now inside the snapshot (boundary term and state digest are checked in check)
+			}
+			if en, ok := n.entryAt(be.Index); !ok || !sameEntry(en, be) {
+				c.fail("CommittedEntryRemoved", "node %d: entry %s was committed on this node (commit %d) and is gone or different after %s", n.id, descEntry(be), before.hs.Commit, evNames[e.K])
+				break
+			}
+		}
+	}
+	if eff.snapIgnored {
+		c.fail("ObsoleteSnapshotInReady", "node %d: Ready after %s asked to install a snapshot at index %d although the node had already applied index %d (storage snapshot at %d)", n.id, evNames[e.K], eff.snapIdx, eff.snapBelow, before.snapIdx)
+	}
+}
+
+// expectedDigest is the application state "the committed prefix up to idx, applied in order",
+// computed from the commit ledger. ok is false if the ledger has a hole below idx (possible
+// only for entries nobody has been observed to commit individually).
+func (c *cluster) expectedDigest(idx uint64) (d digest, ok bool) {
+	for i := uint64(1); i <= idx; i++ {
+		l := c.ledgerAt(i)
+		if l == nil {
+			return d, false
+		}
+		d = d.next(i, l.term, l.typ, l.data)
+	}
+	return d, true
+}
+
+func (c *cluster) check(n, before *node, eff *effects, e Event) {
+	hs := n.hs
+	// --- persisted state never regresses, committed entries stay accounted for
+	c.checkPersisted(n, before, eff, e)
 	if n.alive {
 		st := &n.status
+		// --- the in-memory commit / applied indexes never decrease either. Across a restart
+		// the reference is what was persisted: commit restarts from HardState.Commit, applied
+		// from the snapshot index (the state machine is rebuilt from the snapshot and the
+		// entries above it are re-applied).
+		if before.alive {
+			if st.Commit < before.status.Commit {
+				c.fail("CommitMonotonic", "node %d: in-memory commit index went from %d to %d on %s", n.id, before.status.Commit, st.Commit, evNames[e.K])
+			}
+			if n.appliedIdx < before.appliedIdx || st.Applied < before.status.Applied {
+				c.fail("AppliedMonotonic", "node %d: applied index went from %d (library: %d) to %d (library: %d) on %s", n.id, before.appliedIdx, before.status.Applied, n.appliedIdx, st.Applied, evNames[e.K])
+			}
+		} else if st.Commit < before.hs.Commit {
+			c.fail("CommitMonotonic", "node %d: restarted with commit index %d, persisted before the crash: %d", n.id, st.Commit, before.hs.Commit)
+		}
+		if st.Applied != n.appliedIdx {
+			c.fail("AppliedIndexAgreement", "node %d: the library believes index %d is applied, the application has applied %d", n.id, st.Applied, n.appliedIdx)
+		}
 		// volatile state must agree with what was persisted (Ready handling is complete)
 		if st.Term != hs.Term || st.Vote != hs.Vote || st.Commit != hs.Commit {
 			c.fail("HardStatePersisted", "node %d: in-memory (t%d,v%d,c%d) differs from persisted (t%d,v%d,c%d) after a complete Ready cycle", n.id, st.Term, st.Vote, st.Commit, hs.Term, hs.Vote, hs.Commit)
@@ -106,10 +180,23 @@ func (c *cluster) check(n, before *node, eff *effects, e Event) {
 			c.flags |= fConfApplied
 		}
 	}
+	// --- state machine safety across snapshots: the application state (however it was
+	// reached: entry by entry, by installing a snapshot, by a restart from a snapshot plus
+	// re-application) is the committed prefix up to the applied index. Checked after the
+	// ledger has absorbed this transition's commits.
+	if n.alive && (n.appliedIdx != before.appliedIdx || n.appDigest != before.appDigest) {
+		if want, ok := c.expectedDigest(n.appliedIdx); ok && want != n.appDigest {
+			c.fail("StateMachineSafety", "node %d: application state at applied index %d differs from the committed entries 1..%d applied in order (after %s)", n.id, n.appliedIdx, n.appliedIdx, evNames[e.K])
+		}
+	}
 	// --- a committed entry is never removed or rewritten in any log
+	everCommitted := hs.Commit
+	if before.hs.Commit > everCommitted {
+		everCommitted = before.hs.Commit
+	}
 	for i := range n.log {
 		en := &n.log[i]
-		if en.Index > hs.Commit {
+		if en.Index > everCommitted {
 			break
 		}
 		if l := c.ledgerAt(en.Index); l != nil && (l.term != en.Term || l.typ != en.Type || !bytes.Equal(l.data, en.Data)) {
@@ -183,6 +270,9 @@ func (c *cluster) check(n, before *node, eff *effects, e Event) {
 	for _, m := range c.nodes {
 		if m.isLeader() {
 			leaders++
+		}
+		if m.snapIdx > 0 {
+			c.flags |= fCompacted
 		}
 		if m.alive {
 			if len(m.status.Config.Voters[1]) > 0 {
